@@ -64,7 +64,7 @@ def contracts():
     cs.append(Equiv('reduction.Sum.__init__', 'ref_reduce.sum_init_ref', args={'self': 'inst:reduction.Sum', 'subspec': 'ref', 'init': 'ref'}, config=ctor))
     cs.append(Equiv('reduction.Count.__init__', 'ref_reduce.count_init_ref', args={'self': 'inst:reduction.Count'}, config=ctor))
     from contracts import C13 as _c13, C03 as _c03
-    cs += common.shared(_c13, ['core.TargetRegistry.get_handler', 'core.TargetRegistry.get_type_map', 'core.TargetRegistry._get_closest_type'])
+    cs += common.shared(_c13, ['core.TargetRegistry.get_handler', 'core.TargetRegistry.get_type_map', 'core.TargetRegistry._get_closest_type', 'core.TargetRegistry.register'])
     cs += common.shared(_c03, ['core._has_callable_glomit'])
     return cs
 
